@@ -8,6 +8,7 @@ package action
 // and the per-operation post-conditions of the property are asserted.
 
 import (
+	"bytes"
 	"fmt"
 
 	release "helm.sh/helm/v4/pkg/release/v1"
@@ -169,6 +170,13 @@ func onlyClusterFaults(fired []string) bool {
 // a call, a resource never became ready, or a hook failed.
 func checkContained(w *world, kind string, pre, h []*release.Release, maxPre, preDeployed int, flags string) {
 	atomic := containsStr(flags, "atomic=true")
+	// the manifest of the most recent revision that had been deployed before the operation
+	lastGood := ""
+	for _, r := range pre {
+		if r.Info.Status == release.StatusDeployed || r.Info.Status == release.StatusSuperseded {
+			lastGood = r.Manifest
+		}
+	}
 	created := statusOf(h, maxPre+1)
 	switch kind {
 	case "install":
@@ -180,8 +188,11 @@ func checkContained(w *world, kind string, pre, h []*release.Release, maxPre, pr
 	case "upgrade":
 		if atomic {
 			// rolled back: highest revision deployed
-			if len(h) > 0 && preDeployed != 0 {
+			if created != "" && preDeployed != 0 { // the upgrade got as far as creating its revision
+				vAssert("contained/atomic-upgrade-created-revision-is-failed", created == release.StatusFailed)
 				vAssert("contained/atomic-upgrade-restores-deployed", h[len(h)-1].Info.Status == release.StatusDeployed)
+				vAssert("contained/atomic-upgrade-restores-last-good-manifest", h[len(h)-1].Manifest == lastGood)
+				vAssert("contained/atomic-upgrade-restores-cluster", clusterMatchesManifest(w, lastGood))
 			}
 		} else {
 			if created != "" {
@@ -190,12 +201,77 @@ func checkContained(w *world, kind string, pre, h []*release.Release, maxPre, pr
 			if preDeployed != 0 && statusOf(h, preDeployed) != "" {
 				vAssert("contained/previous-deployed-keeps-status", statusOf(h, preDeployed) == release.StatusDeployed)
 			}
+			if containsStr(flags, "cleanup=true") && lastGood != "" {
+				// resources this upgrade newly created (not in the last good manifest) are deleted again
+				for k := range w.kube.cluster {
+					if k.kind == "ConfigMap" {
+						vAssert("contained/cleanup-on-fail-removes-new-resources", containsStr(lastGood, "name: "+k.name+"\n"))
+					}
+				}
+			}
 		}
 	case "rollback":
 		if created != "" {
 			vAssert("contained/created-revision-is-failed", created == release.StatusFailed)
 		}
 	}
+}
+
+// clusterMatchesManifest: the ConfigMaps in the model cluster are exactly those
+// of the manifest, with the manifest's content.
+func clusterMatchesManifest(w *world, manifest string) bool {
+	rl, err := (&symKube{cluster: map[objKey]*symObj{}, namespace: "default"}).Build(bytes.NewBufferString(manifest), false)
+	if err != nil {
+		return false
+	}
+	want := map[objKey]string{}
+	for _, r := range rl {
+		want[keyOf(r)] = r.Object.(*symObj).Data
+	}
+	n := 0
+	for k, o := range w.kube.cluster {
+		if k.kind != "ConfigMap" {
+			continue
+		}
+		n++
+		if d, ok := want[k]; !ok || d != o.Data {
+			return false
+		}
+	}
+	return n == len(want)
+}
+
+// H01Crash: one upgrade / rollback / uninstall / install --replace from a
+// deployed (or deployed+failed) history with one process death at a symbolic
+// call into the cluster or the store: whatever is stored afterwards satisfies
+// the ledger invariant, and a recovery operation keeps it.
+func H01Crash() {
+	w := newWorld(newFaultPlan(0, 0, "both"))
+	prepareHistory(w, 1+ndChoice("history", 2))
+	w.f.crashes = 1
+	stepOp(w, 0)
+	w.f.crashes = 0
+	stepOp(w, 1)
+}
+
+// H03AtomicAfterFailed: history 1:deployed 2:failed, then an atomic upgrade in
+// which one cluster call fails: the rollback must restore revision 1's manifest.
+func H03AtomicAfterFailed() {
+	w := newWorld(newFaultPlan(0, 0, "kube"))
+	prepareHistory(w, 2)
+	pre := w.history()
+	w.f.budget, w.f.kinds = 1, "kube"
+	up := NewUpgrade(w.config())
+	up.Namespace, up.Atomic = "default", true
+	up.CleanupOnFail, up.DisableHooks = ndBool("cleanup"), ndBool("nohooks")
+	_, err := up.Run(relName, mkChart(2, ndBool("hook")), map[string]interface{}{})
+	h := w.history()
+	vTag("op=upgrade faults=" + fmt.Sprint(w.f.fired) + " | atomic after failed")
+	checkLedger(w, pre, "upgrade")
+	if len(w.f.fired) > 0 && err != nil {
+		checkContained(w, "upgrade", pre, h, pre[len(pre)-1].Version, 1, "atomic=true")
+	}
+	vObservef("err=%v fired=%v -> %s", err != nil, w.f.fired, histString(h))
 }
 
 func hist(depth int, kinds string) {
